@@ -1,16 +1,137 @@
-(* C17 — property theorems.  Nothing but statements, `exact`, Print Assumptions. *)
+(* C17 — property theorems.  Nothing but statements, `exact`, Print Assumptions.
+
+   Vocabulary (G17.Model): a rule is the token sequence of its text ([rx]);
+   [compile_top r] is what regexp.Compile makes of the text [show r], starting
+   from the default flags; [alone r s] is "rule r, taken on its own, matches s";
+   [match_list sh inc exc inv s] is NewRegexpMatcher(inc, exc), [inv] times
+   Inverse(), then Match(s), for the way [sh] of combining rules; [the_shape]
+   is the way the source has on this run (Tables.v). [compiles r] says that the
+   model's regexp accepts r; every rule of the fragment [rule_ok] does. *)
 From Coq Require Import Permutation.
-From G17 Require Import Model Check Proofs Obligations.
+From G17 Require Import Model Check Fragment Proofs Obligations.
 
 (* The list matches a host iff some include rule, taken on its own from the
    default flags, matches it and no exclude rule does — for all rule lists
-   (every rule an expression the modelled regexp accepts) and all strings;
-   [inv] applications of Inverse() negate the answer [inv] times. *)
+   and all strings; [inv] applications of Inverse() negate the answer [inv] times. *)
 Theorem T17_union_minus_excludes : forall inc exc inv s,
   inc <> [] -> forallb compiles inc = true -> forallb compiles exc = true ->
   match_list the_shape inc exc inv s =
   Ans (if Nat.odd inv then negb (union_minus inc exc s) else union_minus inc exc s).
-Proof. exact (fun inc exc inv s =>
-  eq_ind_r (fun sh => _ -> _ -> _ -> match_list sh inc exc inv s = _)
-           (per_rule_correct inc exc inv s ob_inverse_toggles) ob_rules_evaluated_one_by_one). Qed.
+Proof. exact (eq_ind_r meets_reference (per_rule_meets_reference ob_inverse_toggles) ob_rules_evaluated_one_by_one). Qed.
 Print Assumptions T17_union_minus_excludes.
+
+(* The order of the rules does not matter. *)
+Theorem T17_order_irrelevant : forall inc inc' exc exc' inv s,
+  inc <> [] -> forallb compiles inc = true -> forallb compiles exc = true ->
+  Permutation inc inc' -> Permutation exc exc' ->
+  match_list the_shape inc exc inv s = match_list the_shape inc' exc' inv s.
+Proof. exact (order_irrelevant the_shape T17_union_minus_excludes). Qed.
+Print Assumptions T17_order_irrelevant.
+
+(* The inverse matcher gives the negation (and inverting twice gives the matcher back). *)
+Theorem T17_inverse_is_negation : forall inc exc inv s,
+  inc <> [] -> forallb compiles inc = true -> forallb compiles exc = true ->
+  exists a, match_list the_shape inc exc inv s = Ans a /\ match_list the_shape inc exc (S inv) s = Ans (negb a).
+Proof. exact (inverse_negates the_shape T17_union_minus_excludes). Qed.
+Print Assumptions T17_inverse_is_negation.
+
+(* A rule's flags, anchors and alternations never change how another rule is
+   read: replacing a rule by any rule with the same verdict of its own on s
+   leaves the list's answer on s unchanged (include side, exclude side). *)
+Theorem T17_rule_isolation : forall l1 l2 r r' exc inv s,
+  forallb compiles (l1 ++ r :: l2) = true -> compiles r' = true -> forallb compiles exc = true ->
+  alone r s = alone r' s ->
+  match_list the_shape (l1 ++ r :: l2) exc inv s = match_list the_shape (l1 ++ r' :: l2) exc inv s.
+Proof. exact (include_isolation the_shape T17_union_minus_excludes). Qed.
+Print Assumptions T17_rule_isolation.
+
+Theorem T17_rule_isolation_exclude : forall inc l1 l2 r r' inv s,
+  inc <> [] -> forallb compiles inc = true ->
+  forallb compiles (l1 ++ r :: l2) = true -> compiles r' = true ->
+  alone r s = alone r' s ->
+  match_list the_shape inc (l1 ++ r :: l2) inv s = match_list the_shape inc (l1 ++ r' :: l2) inv s.
+Proof. exact (exclude_isolation the_shape T17_union_minus_excludes). Qed.
+Print Assumptions T17_rule_isolation_exclude.
+
+(* Lists of entries marked with '-' (deny-domains, direct-domains, mitm-domains):
+   the unmarked entries are the includes, the marked ones the excludes. *)
+Theorem T17_marked_entries : forall l inv s,
+  existsb (fun e => negb (fst e)) l = true -> forallb (fun e => compiles (snd e)) l = true ->
+  match_entries the_shape l inv s =
+  Ans (if Nat.odd inv then negb (entries_reference l s) else entries_reference l s).
+Proof. exact (entries_correct the_shape T17_union_minus_excludes). Qed.
+Print Assumptions T17_marked_entries.
+
+(* ParseRegexpListItem recovers the mark and the rule text from an entry's text. *)
+Theorem T17_entry_text_roundtrip : forall e, parse_entry (entry_text e) = (fst e, show (snd e)).
+Proof. exact (fun e => parse_entry_roundtrip e ob_exclude_prefix). Qed.
+Print Assumptions T17_entry_text_roundtrip.
+
+(* Every rule of the modelled fragment (literals, '.', classes, ^ $, * + ?, groups,
+   inline flags, alternation, \Q..\E, a final unterminated \Q) is accepted by the
+   model's regexp, so the theorems above apply to all lists over the fragment. *)
+Theorem T17_fragment_compiles : forall r, rule_ok r = true -> compiles r = true.
+Proof. exact rule_ok_compiles. Qed.
+Print Assumptions T17_fragment_compiles.
+
+(* Joining rule texts with "|" is, on token sequences, concatenation with a Bar token. *)
+Theorem T17_join_is_text_concat : forall rules,
+  show (joined JoinBare rules) = join [124] (map show rules) /\
+  show (joined JoinWrapped rules) = join [124] (map (fun r => b "(?:" ++ show r ++ b ")") rules).
+Proof. exact (fun rules => conj (show_join_bar rules)
+  (eq_trans (show_join_bar (map wrap rules))
+            (f_equal (join [124]) (eq_trans (map_map wrap show rules) (map_ext _ _ show_wrap rules))))). Qed.
+Print Assumptions T17_join_is_text_concat.
+
+(* ---- the two joined shapes (kept: they are what a revert would bring back) ---- *)
+
+(* Joining the bare texts is refuted: an inline flag of one rule reaches the next,
+   the order matters, rules are not isolated, an unterminated \Q swallows the rest. *)
+Theorem T17_bare_join_refuted :
+  (exists inc s, forallb rule_ok inc = true /\
+                 match_list JoinBare inc [] 0 s <> Ans (union_minus inc [] s)) /\
+  (exists inc inc' s, Permutation inc inc' /\ match_list JoinBare inc [] 0 s <> match_list JoinBare inc' [] 0 s) /\
+  (exists r r' l2 s, alone r s = alone r' s /\
+                     match_list JoinBare (r :: l2) [] 0 s <> match_list JoinBare (r' :: l2) [] 0 s).
+Proof. exact (conj
+  (ex_intro _ [w_ifoo; w_bar] (ex_intro _ (b "BAR")
+     (conj (proj1 bare_flag_leak)
+           (fun E => eq_ind (Ans true) (fun o => match o with Ans true => True | _ => False end) I _
+                       (eq_trans (eq_sym (proj1 (proj2 bare_flag_leak)))
+                                 (eq_trans E (f_equal Ans (proj2 (proj2 bare_flag_leak)))))))))
+  (conj
+  (ex_intro _ [w_ifoo; w_bar] (ex_intro _ [w_bar; w_ifoo] (ex_intro _ (b "BAR")
+     (conj (perm_swap w_bar w_ifoo [])
+           (fun E => eq_ind (Ans true) (fun o => match o with Ans true => True | _ => False end) I _
+                       (eq_trans (eq_sym (proj1 bare_order_matters)) (eq_trans E (proj2 bare_order_matters))))))))
+  (ex_intro _ w_ifoo (ex_intro _ w_foo (ex_intro _ [w_bar] (ex_intro _ (b "BAR") bare_no_isolation)))))). Qed.
+Print Assumptions T17_bare_join_refuted.
+
+(* Wrapping every rule in (?:...) before joining is correct for rules without an
+   unterminated quote (a group restores the parser's flag state) ... *)
+Theorem T17_wrapped_join_partial : forall inc exc inv s,
+  inverse_toggles = true -> empty_joined_is_nil = true ->
+  inc <> [] -> forallb closed_rule inc = true -> forallb closed_rule exc = true ->
+  match_list JoinWrapped inc exc inv s =
+  Ans (if Nat.odd inv then negb (union_minus inc exc s) else union_minus inc exc s).
+Proof. exact wrapped_correct. Qed.
+Print Assumptions T17_wrapped_join_partial.
+
+(* ... and refuted otherwise: the single valid rule \Qfoo makes MustCompile panic. *)
+Theorem T17_wrapped_join_refuted :
+  exists r s, rule_ok r = true /\ alone r s = true /\ match_list JoinWrapped [r] [] 0 s = Panic.
+Proof. exact (ex_intro _ w_qfoo (ex_intro _ (b "foo") wrapped_open_quote_panics)). Qed.
+Print Assumptions T17_wrapped_join_refuted.
+
+(* Non-vacuity: a concrete list with flags, anchors, alternation, a group, a class
+   and an exclusion meets the hypotheses, and the answers are the expected ones. *)
+Example T17_example :
+  let inc := [w_ifoo; [Bol; Group Cap (L "a" ++ Bar :: L "b"); Rep Plus (Class false [(48, 57)]); Eol]] in
+  let exc := [L "foobar"; w_qfoo] in
+  inc <> [] /\ forallb rule_ok inc = true /\ forallb rule_ok exc = true /\
+  match_list the_shape inc exc 0 (b "xFOOx") = Ans true /\
+  match_list the_shape inc exc 0 (b "b42") = Ans true /\
+  match_list the_shape inc exc 0 (b "xfoobar") = Ans false /\
+  match_list the_shape inc exc 1 (b "b42x") = Ans true.
+Proof. exact (conj (fun E => eq_ind (A:=list rx) [] (fun l => match l with [] => True | _ => False end) I _ (eq_sym E))
+  (conj eq_refl (conj eq_refl (conj eq_refl (conj eq_refl (conj eq_refl eq_refl)))))). Qed.
